@@ -304,6 +304,23 @@ pub fn run(o: &Opts, drv: &mut Driver, rep: &mut Report, prop: &str) {
             let tag = format!("P{}", $m::PBITS);
             cx.rep.hist(&format!("{tag}:{}:N-bits={}", if p < q { "p<q" } else { "p>q" }, if n.bits() == 2 * bits { "2k" } else { "2k-1" }));
             $m::key_checks(&mut cx, &tag, &p, &q, &mut rng);
+            // plaintexts placed relative to the key: m* = -N^-1 mod 2^W (W = width of the plaintext integer type) makes the low
+            // half of 1 + m*N all ones (a carry into the high half), m = (2^W - 1) / N … ; with their neighbours, when below N
+            {
+                use num_bigint_dig::ModInverse;
+                let w = BigUint::from(1u8) << (2 * $m::PBITS);
+                let one = BigUint::from(1u8);
+                let mut specials: Vec<BigUint> = vec![];
+                if let Some(inv) = (&n % &w).mod_inverse(&w).and_then(|i| i.to_biguint()) { let ms = (&w - inv) % &w; specials.push(ms); }
+                specials.push((&w - &one) / &n); specials.push(&w / &n); specials.push(&n >> 1); specials.push((&n >> 1) + &one);
+                for ms in specials { for d in [0i32, -1, 1] {
+                    let m = if d == 0 { ms.clone() } else if d < 0 { if ms == BigUint::from(0u8) { continue } else { &ms - &one } } else { &ms + &one };
+                    if m >= n { continue; }
+                    cx.rep.hist(&format!("{tag}:key-relative plaintext"));
+                    let (r1, r2) = (unit_below(&mut rng, &n), unit_below(&mut rng, &n));
+                    $m::ops(&mut cx, &tag, &p, &q, &m, &(&n - &one), &m, &r1, &r2, true);
+                } }
+            }
             for c in 0..$ncases {
                 let one = BigUint::from(1u8); let zero = BigUint::from(0u8);
                 let (m1, m2, k) = match c % 5 { 0 => (zero.clone(), &n - &one, one.clone()), 1 => (&n - &one, &n - &one, &n - &one), 2 => (one.clone(), zero.clone(), zero.clone()), 3 => (below(&mut rng, &n), &n - &one, BigUint::from(1u8) << (bits - 3)), _ => (below(&mut rng, &n), below(&mut rng, &n), below(&mut rng, &n)) };
